@@ -233,6 +233,9 @@ func runConc(r *hxlib.Run, c Case, tmo time.Duration) bool {
 			select {
 			case pkt := <-s.cli.PendingQueue():
 				feed <- pkt
+				if c.SlowUS > 0 { // the slow consumer of the failing-input search
+					time.Sleep(time.Duration(c.SlowUS) * time.Microsecond)
+				}
 			case <-stopFeed:
 				return
 			}
